@@ -63,8 +63,8 @@ func TestVF_C07(t *testing.T) {
 		"(1..3 matchers of 20 shapes incl. on external/absent names, or no selector at all; ranges around block/chunk edges; replica-label lists over external/stored/absent names). " +
 		"oracle: for the same selectors, range and replica list, names(Series) is a subset of LabelNames and for each label L seen values_L(Series) is a subset of LabelValues(L). " +
 		"evaluation = one subset check; distinct/non-trivial = (fixture, store, request) whose Series call returned at least one series")
-	nFix := r.N(12, 60)
-	nReq := r.N(30, 60)
+	nFix := r.N(12, 110)
+	nReq := r.N(30, 70)
 	r.Require(int64(nFix*nReq*3), nFix*nReq/2)
 	r.Assume("an empty selector list selects every series; the Series API cannot express it, so selector-less label calls are compared with a Series call using one {name=~\".*\"} matcher (matches every series)")
 	r.Assume("external label values are non-empty; request ranges have mint <= maxt")
